@@ -668,4 +668,192 @@ theorem builtin_err (n : Nat) (ih : AllSpec n) (ihe : ErrSpec n) (name : String)
     · simp only [run_bind, run_set, run_pure] at hex; cases hex
     · cases hex; exact ErrOut.refl hw
 
+/-! ## `applyFn`, `mapArr`, `mapList` -/
+
+theorem apply_err (n : Nat) (ih : AllSpec n) (ihe : ErrSpec n) (f : Val) (args : List Val) (s s' : St) (hw : WF s)
+    (hpc : s.pc = -1) (hvf : vok s.fns.length f = true) (ha : ∀ a ∈ args, vok s.fns.length a = true)
+    (hex : (applyFn (n + 1) f args).run s = (.error .err, s')) : ErrOut s s' := by
+  unfold VM.applyFn at hex
+  split at hex
+  · rename_i name
+    exact ihe.builtin name args s s' hw hpc ha hex
+  · rename_i fid
+    simp only [vok, decide_eq_true_eq] at hvf
+    rw [run_bind, run_capture] at hex
+    dsimp only at hex
+    rw [run_bind, run_modify] at hex
+    dsimp only at hex
+    rw [run_bind, run_get] at hex
+    dsimp only at hex
+    rw [run_bind, run_set] at hex
+    dsimp only at hex
+    rw [run_bind, run_get] at hex
+    dsimp only at hex
+    have hw1 : WF { s with pc := -2 } := hw.setPc _
+    obtain ⟨hw2, d2, f2, l2, li2, a2, c2, p2, su2⟩ := applyWrap_spec (fnOf { s with pc := -2 } fid) args { s with pc := -2 } 0 hw1 ha
+    generalize hs2 : (args.foldl (fun (p : St × Nat) v =>
+      if (fnOf { s with pc := -2 } fid).isLazyCallArg p.2 then
+        ({ p.1 with lazies := p.1.lazies ++ [({ e := .nilLit, stack := [], curfunc := 0, value := some v, isValue := true } : LazyObj)],
+                    data := some (.lazy p.1.lazies.length) :: p.1.data }, p.2 + 1)
+      else ({ p.1 with data := some v :: p.1.data }, p.2 + 1)) ({ s with pc := -2 }, 0)).1 = s2 at hex hw2 d2 f2 l2 li2 a2 c2 p2 su2
+    rw [run_bind, run_set] at hex
+    rcases hm : (do callFunction fid args.length; run n : M Val).run s2 with ⟨r, s4⟩
+    rw [hm] at hex
+    cases r with
+    | ok w => simp only [run_pure] at hex; cases hex
+    | error e =>
+      cases e with
+      | panic => simp only [run_throw] at hex; cases hex
+      | timeout => simp only [run_throw] at hex; cases hex
+      | err =>
+        simp only [run_bind, run_restore, run_throw] at hex
+        injection hex with _ h2
+        subst h2
+        have he2 : TExt s s2 := TExt.same f2 l2
+        -- what the nested `callFunction; run` left
+        have hout : ErrOut s2 s4 := by
+          rw [run_bind] at hm
+          rcases hc : (callFunction fid args.length).run s2 with ⟨r1, s3⟩
+          rw [hc] at hm
+          cases r1 with
+          | error e => cases hm; exact callFunction_err fid args.length s2 s4 hw2 hc
+          | ok u =>
+            simp only at hm
+            have hid2 : fid < s2.fns.length := by rw [f2]; exact hvf.2
+            have hg := hw2.fns fid hvf.1 hid2
+            obtain ⟨c1, c2', c3, c4, c5, c6, c7, hw3, c9⟩ := callFunction_ok fid args.length s2 s3 (s.data.map cellOf) hw2 hg d2 hc
+            have hid3 : fid < s3.fns.length := by rw [c6]; exact hid2
+            obtain ⟨ann, hV, hact⟩ := actOK_of_good (hw3.fns fid hvf.1 hid3) hid3
+            have hfo : fnOf s3 fid = fnOf s2 fid := by simp only [VM.fnOf, c6]
+            let b : Base := ⟨s.data, s.linear, s.addr, s.curfunc, -2, false⟩
+            have hrun : Running b s3 ⟨fid, ann, s.data.map cellOf, s.linear.length, s.addr.length + 1⟩ [] := by
+              refine ⟨c1, by rw [c2']; exact Int.le_refl 0, ?_, hact _ _ _, ⟨rfl, rfl, by rw [c3, c2, p2, a2]; exact (if_neg Bool.false_ne_true).mpr rfl⟩,
+                by rw [c4, li2]; exact List.suffix_refl _⟩
+              apply inv_entry _ _ hV
+              · show s3.pc.toNat = 0; rw [c2']; rfl
+              · show s3.data.map cellOf = List.replicate (fnOf s3 fid).params.length Cell.val ++ _
+                rw [c9, hfo]
+              · show s3.linear.length = _; rw [c4, li2]
+              · show s3.addr.length = _; rw [c3, a2]; simp
+            have := ihe.run b s3 s4 _ hw3 hrun rfl rfl (by show s.linear = s3.linear; rw [c4, li2]) hm
+            exact this.pre (TExt.same c6 c7) c5 c4
+        obtain ⟨r1, r2⟩ := restore_lin s s4 (hout.lin.trans li2) (hout.susp.trans su2)
+        exact ⟨hout.tab.restore _, he2.trans (hout.ext.trans (TExt.same rfl rfl)), r2, r1⟩
+  · cases hex; exact ErrOut.refl hw
+
+theorem ErrOut.ofKept {s s1 s' : St} (hk : Kept s s1) (h : ErrOut s1 s') : ErrOut s s' :=
+  h.pre hk.ext hk.same.susp hk.same.linear
+
+theorem mapArr_err (n : Nat) (ih : AllSpec n) (ihe : ErrSpec n) (f : Val) (r i k : Nat) (s s' : St) (hw : WF s) (hpc : s.pc = -1)
+    (hvf : vok s.fns.length f = true) (hex : (mapArr (n + 1) f r i k).run s = (.error .err, s')) : ErrOut s s' := by
+  unfold VM.mapArr at hex
+  split at hex
+  · simp only [run_pure] at hex; cases hex
+  · rw [run_bind, run_get] at hex
+    dsimp only at hex
+    rw [run_bind] at hex
+    have harg : ∀ a ∈ [(s.heap.get r).getD i Val.nil], vok s.fns.length a = true := by
+      intro a hav
+      simp only [List.mem_cons, List.mem_nil_iff, or_false] at hav
+      subst hav
+      rw [List.getD_eq_getElem?_getD]
+      cases hg : (s.heap.get r)[i]? with
+      | none => rfl
+      | some x => exact heap_get_vok hw r x (List.mem_of_getElem? hg)
+    rcases ha : (applyFn n f [(s.heap.get r).getD i .nil]).run s with ⟨rr, s1⟩
+    rw [ha] at hex
+    cases rr with
+    | error e => cases hex; exact ihe.apply f _ s s' hw hpc hvf harg ha
+    | ok v =>
+      dsimp only at hex
+      rw [run_bind] at hex
+      rcases hm : (mapArr n f r (i + 1) k).run s1 with ⟨rr2, s2⟩
+      rw [hm] at hex
+      obtain ⟨hk1, hv1⟩ := ih.apply f _ s s1 v hw hpc hvf harg ha
+      cases rr2 with
+      | error e =>
+        cases hex
+        exact ErrOut.ofKept hk1 (ihe.mapArr f r (i + 1) k s1 s' hk1.wf (hk1.same.pc.trans hpc) (kept_vok_mono hk1 hvf) hm)
+      | ok ws => simp only [run_pure] at hex; cases hex
+
+theorem mapList_err (n : Nat) (ih : AllSpec n) (ihe : ErrSpec n) (f l : Val) (s s' : St) (hw : WF s) (hpc : s.pc = -1)
+    (hvf : vok s.fns.length f = true) (hvl : vok s.fns.length l = true) (hex : (mapList (n + 1) f l).run s = (.error .err, s')) :
+    ErrOut s s' := by
+  unfold VM.mapList at hex
+  split at hex
+  · simp only [run_pure] at hex; cases hex
+  · rename_i a b
+    simp only [vok, Bool.and_eq_true] at hvl
+    rw [run_bind] at hex
+    have harg : ∀ x ∈ [a], vok s.fns.length x = true := fun x hx => by simp at hx; subst hx; exact hvl.1
+    rcases ha : (applyFn n f [a]).run s with ⟨rr, s1⟩
+    rw [ha] at hex
+    cases rr with
+    | error e => cases hex; exact ihe.apply f [a] s s' hw hpc hvf harg ha
+    | ok w =>
+      dsimp only at hex
+      rw [run_bind] at hex
+      rcases hm : (mapList n f b).run s1 with ⟨rr2, s2⟩
+      rw [hm] at hex
+      obtain ⟨hk1, hv1⟩ := ih.apply f [a] s s1 w hw hpc hvf harg ha
+      cases rr2 with
+      | error e =>
+        cases hex
+        exact ErrOut.ofKept hk1 (ihe.mapList f b s1 s' hk1.wf (hk1.same.pc.trans hpc) (kept_vok_mono hk1 hvf)
+          (kept_vok_mono hk1 hvl.2) hm)
+      | ok t => simp only [run_pure] at hex; cases hex
+  · cases hex; exact ErrOut.refl hw
+
+/-! ## `forceLazy` -/
+
+theorem bind_err_inv {α β} (m : M α) (k : α → M β) (s s' : St) (e : Fault) (h : (m >>= k).run s = (.error e, s')) :
+    m.run s = (.error e, s') ∨ ∃ a s1, m.run s = (.ok a, s1) ∧ (k a).run s1 = (.error e, s') := by
+  rw [run_bind] at h
+  rcases hm : m.run s with ⟨r, s1⟩
+  rw [hm] at h
+  cases r with
+  | error e' => cases h; exact Or.inl rfl
+  | ok a => exact Or.inr ⟨a, s1, rfl, h⟩
+
+theorem force_err (n : Nat) (ih : AllSpec n) (ihe : ErrSpec n) (id : Nat) (s s' : St) (hw : WF s)
+    (hex : (forceLazy (n + 1) id).run s = (.error .err, s')) : ErrOut s s' := by
+  unfold VM.forceLazy at hex
+  rw [run_bind, run_get] at hex
+  dsimp only at hex
+  split at hex
+  · cases hex; exact ErrOut.refl hw
+  · rename_i lz hlz
+    have hlzm := hw.lazies lz (List.mem_of_getElem? hlz)
+    split at hex
+    · simp only [run_pure] at hex; cases hex
+    · rw [run_bind] at hex
+      rcases hg : (runGen (compile (isFnScope s) {} lz.e)).run s with ⟨r, s1⟩
+      rw [hg] at hex
+      cases r with
+      | error er =>
+        have := runGen_err _ s s1 er hg
+        subst this
+        cases hex
+        exact ErrOut.refl hw
+      | ok ct =>
+        obtain ⟨code, t⟩ := ct
+        obtain ⟨hw1, he1, g1, g2, g3, g4, g5, g6, g7, g8, g9, hcode, hver⟩ := wf_runGen (isFnScope s) lz.e code t hw hlzm.1 hg
+        dsimp only at hex
+        split at hex
+        · simp only [run_bind, run_modify, run_pure] at hex; cases hex
+        · rw [run_bind, run_mkFunction] at hex
+          dsimp only at hex
+          rw [run_bind, run_capture] at hex
+          dsimp only at hex
+          rw [run_bind, run_modify] at hex
+          dsimp only at hex
+          rcases bind_err_inv _ _ _ _ _ hex with hn | ⟨w, s4, hn, hfin⟩
+          · obtain ⟨s3, h1, hw3, he3, su3, l3⟩ :=
+              thunk_err n ihe "lazyArgForce" s1 s' code lz.stack (some lz.curfunc) hw1 hcode hver
+                (captureOf s1) lz.stack (s1.linear :: s1.suspended) hn
+            obtain ⟨r1, r2⟩ := restore_lin_force s1 s3 su3
+            rw [h1]
+            exact ⟨hw3.restore _, he1.trans (he3.trans (TExt.same rfl rfl)), r2.trans g6, r1.trans g2⟩
+          · simp only [run_bind, run_modify, run_pure] at hfin; cases hfin
+
 end ZygoVerif.RunInv
